@@ -171,6 +171,20 @@ def work_str_bytes(shard):
             part.violation('str/bytes/len%s' % (len(v) if len(v) < 3 else 'long'),
                            'set_variable(A$, %r) reads back %r' % (v, got), {'value': v})
         part.classes.add('str/bytes/len%s' % (len(v) if len(v) < 3 else 'long'))
+        if kind == 'one' and ok:
+            # the value stays what was set while the session is used for something else
+            ok2, _ = _guard(part, 'str/evaluate-other', {'value': v}, s.evaluate, 'LEN("ab"+"c")')
+            ok3, ev = _guard(part, 'str/evaluate-itself', {'value': v}, s.evaluate, 'A$')
+            ok4, _ = _guard(part, 'str/set-other', {'value': v}, s.set_variable, 'B$', b'other!')
+            ok5, again = _guard(part, 'str/get-again', {'value': v}, s.get_variable, 'A$')
+            part.n += 1
+            if ok3 and ev != v:
+                part.violation('str/bytes/evaluate-after-set', 'set_variable(A$, %r), evaluate(LEN(..)): evaluate(A$) gives %r' % (
+                    v, ev), {'value': v})
+            elif ok5 and again != v:
+                part.violation('str/bytes/changed-by-later-use', 'set_variable(A$, %r), two evaluations, set_variable(B$): '
+                               'get_variable(A$) gives %r' % (v, again), {'value': v})
+            part.classes.add('str/bytes/kept-during-later-use')
     if kind == 'one':
         ok, res = _guard(part, 'str/too-long', {}, s.set_variable, 'A$', b'z' * 256)
         part.outcome('str-256:%s' % ('accepted' if ok else type(res).__name__))
